@@ -67,6 +67,9 @@ func sliceProbes() {
 				try("[4]int(s)", func() { r := [4]int(s[:C]); println(" ", C, r[0]) })
 				try("(*[2]int)(s)", func() { r := (*[2]int)(s[:C]); println(" ", C, len(r)) })
 				try("(*[0]int)(s)", func() { r := (*[0]int)(s); println(" ", C, len(r)) })
+				// length below the array length but capacity sufficient: must still panic
+				try("[2]int(s) len<N<=cap", func() { r := [2]int(s[:C][:lo&1]); println(" ", C, r[0]) })
+				try("(*[3]int)(s) len<N<=cap", func() { r := (*[3]int)(s[:C][:(lo+8)%3]); println(" ", C, len(r)) })
 				try("make(n)", func() { r := make([]int, lo); println(" ", lo, len(r)) })
 				try("make(n,c)", func() { r := make([]byte, lo, C); println(" ", lo, C, len(r), cap(r)) })
 			}
